@@ -287,13 +287,22 @@ def stream_of_waiters(prog, env, f, init):
     m = re.match(r"^(?P<W>[\w:]+)\((?P<H>.+)\[\*\]\.1,self\.committee\.stake\((?P<H2>.+)\[\*\]\.0\)\)$", tt)
     if not m or m.group("H") != m.group("H2") or m.group("H") != bt:
         return False, "future is `%s`, not waiter(handlers[i].1, self.committee.stake(handlers[i].0))" % tt, None
+    okw, whyw = waiter_ok(prog, env, m.group("W"))
+    if not okw:
+        return False, whyw, None
     wf = prog.fn(m.group("W"))
+    return True, "stream = %s.map(|(name, h)| %s(h, committee.stake(name))); waiter awaits the handle, then returns the stake" % (bt, wf.name), bt[:-len(".handlers")]
+
+
+def waiter_ok(prog, env, wpath):
+    """wpath(handle, value): awaits the handle, then returns `value` (and nothing else, on every path)."""
+    wf = prog.fn(wpath)
     if wf is None:
-        return False, "waiter function %s not found" % m.group("W"), None
+        return False, "waiter function %s not found" % wpath
     wctx = env.ctx(wf)
     ps = [p for p in wf.params if p["k"] == "pbind"]
     if len(ps) != 2:
-        return False, "waiter has %d parameters" % len(ps), None
+        return False, "waiter has %d parameters" % len(ps)
     t0 = wctx.var_term(ps[0]["id"], ps[0]["name"])
     t1 = wctx.var_term(ps[1]["id"], ps[1]["name"])
     wt = wf.body
@@ -302,12 +311,12 @@ def stream_of_waiters(prog, env, f, init):
         wt = wt["expr"]
     rets = [x for x in wf.nodes() if x["k"] == "ret"]
     if rets or wctx.term(wt) != t1:
-        return False, "waiter returns `%s` (or returns early), not its stake parameter" % wctx.term(wt), None
+        return False, "waiter returns `%s` (or returns early), not its stake parameter" % wctx.term(wt)
     doms = env.flow(wf).dominators(wt)
     aw = [d for d in doms if d["k"] == "await" and wctx.term(d["e"]) == t0]
     if not aw:
-        return False, "waiter does not await its handle before returning the stake", None
-    return True, "stream = %s.map(|(name, h)| %s(h, committee.stake(name))); waiter awaits the handle, then returns the stake" % (bt, wf.name), bt[:-len(".handlers")]
+        return False, "waiter does not await its handle before returning the stake"
+    return True, "%s awaits the handle, then returns the stake" % wf.name
 
 
 def ordered_map_push(env, fn):
